@@ -1979,6 +1979,8 @@ func genTree(rg *rand.Rand, maxEntries, maxDepth int, allowLarge bool, small boo
 				}
 				nd.Data = b
 			}
+		} else if hasArchiveExt(name) && rg.Intn(4) == 0 {
+			// an EMPTY file with an archive-like name
 		} else if hasArchiveExt(name) && rg.Intn(2) == 0 {
 			stem := rel[:len(rel)-len(filepath.Ext(name))]
 			if used[stem] {
@@ -2017,6 +2019,29 @@ func extTrees() (fake []nodeSpec, nested []nodeSpec) {
 			d("sub", mt+1e9), t("sub/a..b", "deep", mt+2e9), t("plain", "p", mt+3e9), d("dir.gz", mt+4e9), t("fake.zip", "ordinary", mt+5e9)}})
 	}
 	nested = append(nested, nodeSpec{Rel: "real-zip-without-extension", MTime: t0, Nested: []nodeSpec{t("x", "x", t0)}})
+	return
+}
+
+// extProduct: every extension of ZipFileExtensions (the library's own list), lower and upper case, x contents
+// {empty, 1 byte, text, looks-like-a-zip-but-is-not, a real nested archive}.  plain = the files that are not archives by
+// content (they must round-trip as files under every limit setting); fakeZip / nested are kept apart because recursive
+// limits treat them differently by design (rejected as invalid / expanded).
+func extProduct() (plain, fakeZip, nested []nodeSpec) {
+	i := 0
+	for _, e0 := range filesystem.ZipFileExtensions {
+		for _, e := range []string{e0, strings.ToUpper(e0)} {
+			mt := t0 + int64(i)*1e9
+			i++
+			plain = append(plain,
+				t("empty-"+fmt.Sprint(i)+e, "", mt),
+				t("app.log."+fmt.Sprint(i)+e, "", mt+1),
+				t("one-"+fmt.Sprint(i)+e, "x", mt+2),
+				t("text-"+fmt.Sprint(i)+e, "just some text, not an archive\n", mt+3))
+			fakeZip = append(fakeZip, t("fake-"+fmt.Sprint(i)+e, "PK\x03\x04 looks like a zip but is not", mt+4))
+			nested = append(nested, nodeSpec{Rel: "real-" + fmt.Sprint(i) + e, MTime: mt + 5, Nested: []nodeSpec{d("in", mt), t("in/f", "f", mt+1), t("empty.gz", "", mt+2)}})
+		}
+	}
+	plain = append(plain, d("dir", t0), t("dir/empty.tar.gz", "", t0+7), t("dir/.gz", "", t0+9))
 	return
 }
 
@@ -2192,6 +2217,16 @@ func main() {
 		recLim := &limSpec{MaxFile: 1 << 30, MaxTotal: 1 << 32, MaxCount: 1 << 20, MaxDepth: -1, Recursive: true}
 		runScenario(r, scenario{Kind: "round", Backend: be, Tree: fakeExt, Limits: recLim}, true)
 		runScenario(r, scenario{Kind: "round", Backend: be, Tree: nestedExt, Limits: recLim}, false)
+		// the product extension x content x limits
+		plainP, fakeP, nestedP := extProduct()
+		nonRec := &limSpec{MaxFile: 1 << 30, MaxTotal: 1 << 32, MaxCount: 1 << 20, MaxDepth: 10}
+		for _, lm := range []*limSpec{nil, nonRec, recLim} {
+			runScenario(r, scenario{Kind: "round", Backend: be, Tree: plainP, Limits: lm}, true)
+			runScenario(r, scenario{Kind: "round", Backend: be, Tree: nestedP, Limits: lm}, false)
+			if lm == nil || !lm.Recursive {
+				runScenario(r, scenario{Kind: "round", Backend: be, Tree: append(append([]nodeSpec{}, plainP...), fakeP...), Limits: lm}, false)
+			}
+		}
 		// nested archives whose stem is "..", "" or ".": refused (malicious) resp. expanded into the holding directory
 		// under recursive limits; ordinary files otherwise
 		inner := []nodeSpec{d("nd", t0+1e9), t("nd/leaf", "leaf", t0+2e9), t("solo", "s", t0+3e9)}
